@@ -110,6 +110,12 @@ def run_case(case) -> Result:
         if not viol:
             viol.append(Violation(kind, site, text + f" [{subject}]", "accessors"))
 
+    try:  # a name nobody registered: every Hexital accessor says so in its own way, consistently
+        if hx.reading_as_list("no_such_indicator") != [] or hx.reading("no_such_indicator") is not None or hx.has_reading("no_such_indicator") is not False or hx.prev_reading("no_such_indicator") is not None:
+            bad("accessors-disagree", "unknown-name", "an unregistered name yields a reading", "accessors")
+    except Exception as exc:
+        v = raises(exc, "accessors")
+        bad(v.kind, v.site, "unregistered name: " + v.detail, "accessors")
     for m, ind in zip(case["members"], inds):
         subject = gc.subject_of(m["cfg"])
         cs = ind.candles
